@@ -496,6 +496,9 @@ pub struct AuditVmState {
     pub manual: Vec<usize>,
     /// freed manual buffers that still hold a pointer value (must be 0: free clears the data)
     pub manual_freed_dirty: usize,
+    /// for every entry of open_upvalues: the absolute register (frame_base + register) an OPEN
+    /// upvalue refers to, None when the object is closed / not an upvalue
+    pub open_upvalue_registers: Vec<Option<usize>>,
 }
 
 impl crate::vm::VM {
@@ -529,6 +532,17 @@ impl crate::vm::VM {
             open_upvalues: self.open_upvalues.iter().map(|u| u.index()).collect(),
             current_upvalues: self.current_upvalues.iter().map(|u| u.index()).collect(),
             globals_cache,
+            open_upvalue_registers: self
+                .open_upvalues
+                .iter()
+                .map(|u| match self.heap.get(*u).map(|o| &o.kind) {
+                    Some(aelys_bytecode::object::ObjectKind::Upvalue(up)) => match up.location {
+                        aelys_bytecode::object::UpvalueLocation::Open { frame_base, register } => Some(frame_base + register as usize),
+                        _ => None,
+                    },
+                    _ => None,
+                })
+                .collect(),
             manual: self.manual_heap.verif_live_ptrs(),
             manual_freed_dirty: self.manual_heap.verif_buffer_counts().1,
         }
